@@ -28,6 +28,11 @@ Theorem C08_store_fill_buf_keeps_position : forall st r scr st',
 Proof. exact bs_fill_buf_position. Qed.
 Print Assumptions C08_store_fill_buf_keeps_position.
 
+Theorem C08_store_fill_zero_keeps_position : forall st r scr st',
+  bs_inv st -> sfill_state (bs_fill_zero st r scr) = Some st' -> bs_position st' = bs_position st.
+Proof. exact bs_fill_zero_position. Qed.
+Print Assumptions C08_store_fill_zero_keeps_position.
+
 Theorem C08_store_advance_moves_position : forall st amt st',
   bs_advance st amt = Ok st' -> bs_position st' = bs_position st + amt.
 Proof. exact bs_advance_position. Qed.
